@@ -7,7 +7,9 @@ package c18
 import (
 	"context"
 	"testing"
+	"time"
 
+	eth2v1 "github.com/attestantio/go-eth2-client/api/v1"
 	eth2p0 "github.com/attestantio/go-eth2-client/spec/phase0"
 
 	"github.com/obolnetwork/charon/core"
@@ -58,4 +60,28 @@ func TestReproDutyDBAlias(t *testing.T) {
 	c1, _ := db.AwaitSyncContribution(ctx, uint64(c.Slot), c.SubcommitteeIndex, c.BeaconBlockRoot)
 	c2, _ := db.AwaitSyncContribution(ctx, uint64(c.Slot), c.SubcommitteeIndex, c.BeaconBlockRoot)
 	t.Logf("AwaitSyncContribution: two readers same pointer: %v", c1 == c2)
+}
+
+// Observation (not counted as a violation, see the assumptions in evidence/C18.json): the scheduler keeps the
+// ValidatorSyncCommitteeIndices slice of the beacon client's SyncCommitteeDuty answer without copying it, so a later write
+// to the answer object shows up in GetDutyDefinition.
+//   go test -count=1 -vet=off -run TestObsSchedulerKeepsBeaconAnswerSlice -v ./c18
+func TestObsSchedulerKeepsBeaconAnswerSlice(t *testing.T) {
+	ctx, cancel := context.WithTimeout(context.Background(), 20*time.Second)
+	defer cancel()
+	r := &run{t: t, ctx: ctx, cfg: map[string]any{"comp": "scheduler", "typ": "syncdef"}, fresh: map[string]string{}}
+	c := &schedC{}
+	answer := c.New(r, "w1").([]*eth2v1.SyncCommitteeDuty)
+	if err := c.Put(r, "Resolve", "w1", func(string, string, any) {}); err != nil {
+		t.Fatal(err)
+	}
+	before, _, _, err := c.Get(r, "GetDutyDefinition", "w1", 0)
+	if err != nil {
+		t.Fatal(err)
+	}
+	for _, d := range answer {
+		d.ValidatorSyncCommitteeIndices[0] ^= 1
+	}
+	after, _, _, _ := c.Get(r, "GetDutyDefinition", "w1", 0)
+	t.Logf("GetDutyDefinition changed after the beacon answer was written to: %v", inspect(before).hash != inspect(after).hash)
 }
